@@ -29,6 +29,8 @@ class NetConfig:
         self.socks = {"method": None, "auth_status": 0, "reply": 0, "atyp": 1}
         self.socks.update(socks or {})
         self.h2 = dict(h2 or {})
+        self.seen_tokens: set = set()  # tokens of requests any HTTP/2 server of this world has received (for reactive plans)
+        self.deferred: list = []
 
     def endpoint(self, name: str) -> dict:
         spec = self.endpoints.get(name.lower())
